@@ -167,6 +167,46 @@ def codec(ctx, f, quick):
         r = JAny(a=val, b=leaf)
         results.append(run_one(r, JAny, []))
         info.append(("json", c))
+    # record classes that extend a concrete record class (used AFTER their base class was used): the added fields must survive
+    @dataclass
+    class JBase(f.JsonRecord):
+        a: object
+        b: object
+
+    @dataclass
+    class JDerived(JBase):
+        c: object = None
+        d: object = "dflt"
+
+    @dataclass
+    class CBase(f.CSVRecord):
+        n: int
+        text: str
+
+    @dataclass
+    class CDerived(CBase):
+        w: float = 0.0
+        more: str = ""
+
+    @dataclass
+    class TDerived(f.TSVRecord):
+        n: int
+        text: str
+
+    @dataclass
+    class TDerived2(TDerived):
+        w: float = 0.0
+    for k, (c, leaf) in enumerate(leaves[:60]):
+        other = leaves[(k * 5 + 1) % len(leaves)][1]
+        for r, cls in ((JBase(a=leaf, b=other), JBase), (JDerived(a=leaf, b=other, c=[leaf], d=other), JDerived)):
+            results.append(run_one(r, cls, []))
+            info.append(("json:" + cls.__name__, c))
+    for k, c in enumerate(doms["csv"][0][:120]):
+        s = "".join(chr(x) for x in c["s"])
+        for r, cls, kind in ((CBase(n=INTS[c["i"]], text=s), CBase, "csv"), (CDerived(n=INTS[c["i"]], text=s, w=FLOATS[c["f"]], more=s[::-1]), CDerived, "csv"),
+                             (TDerived(n=INTS[c["i"]], text=s), TDerived, "tsv"), (TDerived2(n=INTS[c["i"]], text=s, w=FLOATS[c["f"]]), TDerived2, "tsv")):
+            results.append(run_one(r, cls, cps("\r\n")))
+            info.append((kind + ":" + cls.__name__, c))
     verdicts = cases.judge(CODEC, doms["csv"][1], results, ctx, "codec_law")
     for (kind, c), res, ok in zip(info, results, verdicts):
         ctx.case(("codec", kind, str(c)))
